@@ -223,6 +223,10 @@ impl EventSource for Park {
         let timeout = self.timeout.take();
         // the earliest possible deadline of the timer
         let deadline = timeout.map(|dur| now().saturating_add(dur.as_nanos() as u64));
+        // register the cancel data before the coroutine is published. afterwards it
+        // can be resumed and block on another park: a registration done then would
+        // replace the new one, and a cancel of the coroutine would find nobody to wake
+        cancel.set_co(self.wait_co.clone());
         let timeout_handle = timeout.map(|dur| get_scheduler().add_timer(dur, self.wait_co.clone()));
         self.set_timeout_handle(timeout_handle);
 
@@ -259,11 +263,14 @@ impl EventSource for Park {
             return;
         }
 
-        // register the cancel data
-        cancel.set_co(self.wait_co.clone());
-        // re-check the cancel status
+        // re-check the cancel status. a canceller that came before the coroutine was
+        // stored has consumed the registration and found nothing: wake it up here
         if cancel.is_canceled() {
-            unsafe { cancel.cancel() };
+            if let Some(mut co) = self.wait_co.take() {
+                drop(g);
+                set_co_para(&mut co, io::Error::other("Canceled"));
+                get_scheduler().schedule(co);
+            }
         }
     }
 
